@@ -115,12 +115,14 @@ def main(argv=None):
         samples += r["samples"]
         side += r["side_alarms"]
         errors += r["errors"]
-        for v in r["violations"]:
-            if v.get("mech") and v["mech"] in known_open:
-                h = known_hits.setdefault(v["mech"], {"n": 0, "example": v})
-                h["n"] += 1
-            else:
-                viol.append(v)
+        viol += r["violations"]
+        for mech, h in r.get("mech_hits", {}).items():
+            if mech in known_open:
+                kh = known_hits.setdefault(mech, {"n": 0, "example": h["example"]})
+                kh["n"] += h["n"]
+            else:  # explained by a mechanism that is not an open known finding (e.g. a fixed one came back)
+                viol.append(h["example"])
+                counters["violations_by_mechanism:" + mech] = counters.get("violations_by_mechanism:" + mech, 0) + h["n"]
     stopped = [r["shard"] for r in live if r.get("stopped_early")]
 
     reasons = []
